@@ -27,7 +27,8 @@ from genjax.adev import Dual, expectation
 
 PROP = "C11"
 ENUM = ["flip_enum", "flip_enum_parallel", "cat_enum_parallel"]
-REPARAM = ["normal_reparam", "uniform_reparam", "mvn_reparam", "mvn_diag_reparam", "normal_reparam_vec", "uniform_reparam_vec"]
+REPARAM = ["normal_reparam", "uniform_reparam", "mvn_reparam", "mvn_diag_reparam", "normal_reparam_vec", "uniform_reparam_vec",
+           "normal_reparam_vloc"]
 SCORE = ["flip_mvd", "flip_reinforce", "normal_reinforce", "geometric_reinforce", "mvn_reinforce"]
 ALL = ENUM + REPARAM + SCORE
 
@@ -70,6 +71,9 @@ def site_params(xp, name, acc, t1):
     if name == "normal_reparam_vec":
         # scalar location, vector scale: the per-coordinate noises must be independent
         return (acc, xp.stack([0.5 + 0.3 * sg(xp, t1), 0.8 + 0.0 * t1]))
+    if name == "normal_reparam_vloc":
+        # vector location, scalar scale (an isotropic family): again one independent noise per coordinate
+        return (xp.stack([acc, 0.5 * acc - 0.2]), 0.5 + 0.3 * sg(xp, t1))
     if name == "uniform_reparam_vec":
         return (acc - 1.0, xp.stack([acc + 1.0 + 0.5 * sg(xp, t1), acc + 2.0 + 0.0 * t1]))
     if name in ("uniform_reparam", "uniform_reinforce"):
@@ -104,6 +108,7 @@ def prim(name):
             "flip_reinforce": adev.flip_reinforce, "cat_enum_parallel": adev.categorical_enum_parallel,
             "normal_reparam": adev.normal_reparam, "normal_reinforce": adev.normal_reinforce,
             "normal_reparam_vec": adev.normal_reparam, "uniform_reparam_vec": adev.uniform_reparam,
+            "normal_reparam_vloc": adev.normal_reparam,
             "uniform_reparam": adev.uniform_reparam, "uniform_reinforce": adev.uniform_reinforce,
             "geometric_reinforce": adev.geometric_reinforce, "mvn_reparam": adev.multivariate_normal_reparam,
             "mvn_reinforce": adev.multivariate_normal_reinforce, "mvn_diag_reparam": adev.multivariate_normal_diag_reparam}[name]
@@ -190,7 +195,7 @@ def site_values(name, p, n):
     if name in ("uniform_reparam", "uniform_reinforce"):
         xs, ws = gl(n)
         return [(float(p[0] + (p[1] - p[0]) * x), w) for x, w in zip(xs, ws)]
-    if name in ("normal_reparam_vec", "uniform_reparam_vec"):
+    if name in ("normal_reparam_vec", "uniform_reparam_vec", "normal_reparam_vloc"):
         xs, ws = gh(max(8, n // 2)) if name.startswith("normal") else gl(max(8, n // 2))
         out = []
         for (x1, w1), (x2, w2) in itertools.product(zip(xs, ws), repeat=2):
